@@ -53,6 +53,14 @@ def run(ctx):
                   'paused workflow or while tasks are pending; CANCELLED '
                   'before SUCCESS before ERROR (shared with C01.R17)', 'DT')
     completion.check_and_complete_table(ctx, r6)
+    r8 = ctx.rule('R8', 'the operations queued for after the transaction '
+                  '(reports of cancelled sub-workflows to their parents '
+                  'among them) are run one by one: a failing one does not '
+                  'drop the rest', 'GD (handlers)')
+    _sh.batch_items_isolated(
+        ctx, r8, 'mistral.engine.post_tx_queue._process_queue',
+        lambda c: isinstance(c.func, ast.Name) and c.func.id == 'func',
+        'post-transaction operations', under=('in_tx', False))
 
 
 def _run(ctx):
